@@ -41,7 +41,7 @@ func TestC11Binary(t *testing.T) {
 		t.Skipf("prunner binary not built: %v", err)
 	}
 	vh := helper(t)
-	col := ev.Get("C11", "binary", "the real prunner binary (go build ./cmd/prunner from the tree under test) with a generated pipelines.yml of 'vhelper hang' tasks (two-task chain, concurrency 1, queue) is started, 2-4 jobs are scheduled over HTTP, and SIGINT (graceful) or SIGTERM (forced) is sent at a generated instant; oracle: the process exits within the bound (graceful: remaining task time + 3 s; forced: 2 s kill timeout + 3 s), data.json loads and holds every accepted job in a terminal state; SIGINT => the running job ran both tasks to their end and is reported completed, waiting jobs are canceled and never ran; SIGTERM => no helper process is alive afterwards and the running job is reported canceled; non-trivial = a job was running and another waiting when the signal arrived; distinct by (signal, instant, task duration)")
+	col := ev.Get("C11", "binary", "the real prunner binary (go build ./cmd/prunner from the tree under test) with a generated pipelines.yml of 'vhelper hang' tasks (two-task chain, concurrency 1, queue) is started, 2-4 jobs are scheduled over HTTP, and SIGINT (graceful) or SIGTERM (forced) is sent at a generated instant, in half of the cases followed 1-60 ms later by a reload request (SIGUSR1); oracle: the program does not crash, the process exits within the bound (graceful: remaining task time + 3 s; forced: 2 s kill timeout + 3 s), data.json loads and holds every accepted job in a terminal state; SIGINT => the running job ran both tasks to their end and is reported completed, waiting jobs are canceled and never ran; SIGTERM => no helper process is alive afterwards and the running job is reported canceled; non-trivial = a job was running and another waiting when the signal arrived; distinct by (signal, instant, task duration)")
 	auth := jwtauth.New("HS256", []byte(binSecret), nil)
 	_, token, _ := auth.Encode(map[string]interface{}{"sub": "bin"})
 	rapid.Check(t, func(rt *rapid.T) {
@@ -112,6 +112,12 @@ func TestC11Binary(t *testing.T) {
 		readyAtSignal := readyCount(ready)
 		sent := time.Now()
 		_ = cmd.Process.Signal(sig)
+		// a reload request (SIGUSR1) that arrives while the shutdown is in progress must not disturb it
+		reloadDuring := rapid.Bool().Draw(rt, "reloadRequestDuringShutdown")
+		if reloadDuring {
+			time.Sleep(time.Duration(rapid.IntRange(1, 60).Draw(rt, "reloadAfterMs")) * time.Millisecond)
+			_ = cmd.Process.Signal(syscall.SIGUSR1)
+		}
 		bound := time.Duration(2*durMs)*time.Millisecond + 3*time.Second
 		if sig == syscall.SIGTERM {
 			bound = 2*time.Second + 3*time.Second
@@ -122,6 +128,13 @@ func TestC11Binary(t *testing.T) {
 			rt.Fatalf("[C11] %v: the process has not exited %s after the signal", sig, bound)
 		}
 		took := time.Since(sent)
+		if out := logs.String(); strings.Contains(out, "panic:") || strings.Contains(out, "fatal error:") {
+			i := strings.Index(out, "panic:")
+			if i < 0 {
+				i = strings.Index(out, "fatal error:")
+			}
+			rt.Fatalf("[C11] %v (reload request during the shutdown: %v): the program crashes instead of shutting down: %s", sig, reloadDuring, strings.SplitN(out[i:], "\n", 2)[0])
+		}
 		st, _ := store.NewJSONDataStore(filepath.Join(dir, "data"))
 		data, err := st.Load()
 		if err != nil {
@@ -165,7 +178,7 @@ func TestC11Binary(t *testing.T) {
 		if alive := aliveWithMarker(marker); len(alive) > 0 {
 			rt.Fatalf("[C11] %v: %d task processes are alive after prunner exited", sig, len(alive))
 		}
-		col.Add(fmt.Sprintf("%v/%d/%d/%d", sig, durMs, nJobs, readyAtSignal), running > 0 && waiting > 0, map[string]int{"signal:" + sig.String(): 1, "running+waiting": btoi(running > 0 && waiting > 0)}, nJobs,
+		col.Add(fmt.Sprintf("%v/%d/%d/%d/%v", sig, durMs, nJobs, readyAtSignal, reloadDuring), running > 0 && waiting > 0, map[string]int{"signal:" + sig.String(): 1, "running+waiting": btoi(running > 0 && waiting > 0), "reload-request-during-shutdown": btoi(reloadDuring)}, nJobs,
 			map[string]interface{}{"signal": sig.String(), "task_ms": durMs, "jobs": nJobs, "tasks_started_at_signal": readyAtSignal, "exit_after_ms": took.Milliseconds()})
 	})
 }
